@@ -138,6 +138,7 @@ type Engine struct {
 	snapCells   map[*ssa.Global]*value
 	Forced      []int // forced alternatives for the leading pure choices (task splitting)
 	OverflowChecks bool
+	SymMapOrder bool // C19: iteration order of maps in repository code is a symbolic permutation
 	Thorough    bool
 	Events      int
 	Ranges      map[string]rangeDecl
@@ -197,6 +198,7 @@ func (e *Engine) beginPath() {
 	e.choiceNames = nil
 	e.tags = nil
 	e.hints = nil
+	e.OverflowChecks = false
 	e.obsKeys = nil
 	e.obsTerms = map[string]*smt.Term{}
 }
